@@ -117,6 +117,12 @@ def run(tier):
                 "with sequences of solve() calls, restores into the same or a new directory with a new cadence, and "
                 "frequency 0; after wait_until_finished the directory listing, every save call's label/content and the "
                 "configuration file are judged by CheckpointTrace.tla. distinct = distinct scenario")
+    # several directories: which one a solver saves to, which one restore() reads, backup copies, default directories
+    res = C.run_tlc("CheckpointDirs", "CheckpointDirsSmall.cfg" if tier == "quick" else "CheckpointDirs.cfg", coverage=True)
+    C.tlc_must_be_clean(res, "CheckpointDirs")
+    rep.add_tlc("CheckpointDirs (directories as sets of committed steps: new / default / copy / restore with and without a new directory)", res)
+    if res.invariant_violated:
+        rep.violation("spec:CheckpointDirs " + ",".join(res.violated), {"tlc": res.out[-3000:]})
     for cfg in ("Checkpoint.cfg", "CheckpointCalls.cfg", "CheckpointExplicit.cfg"):
         res = C.run_tlc("Checkpoint", cfg, coverage=True)
         C.tlc_must_be_clean(res, "Checkpoint " + cfg)
